@@ -18,7 +18,8 @@ Mirrors the code that exists:
   parser (`Dotenv.parse`, BOM stripped) with the lookup chain current project environment → earlier files
   (→ earlier lines of the same file, inside the parser);
 * `cli.WithConfigFileEnv` (`withConfigFileEnv`, `splitOn`), `cli.WithDefaultConfigPath` (`searchUp`),
-  `cli.WithWorkingDirectory`, `ProjectOptions.GetWorkingDir` (`projDirId`) over a finite directory tree;
+  `cli.WithWorkingDirectory`, `ProjectOptions.GetWorkingDir` (`projDirId`) over a finite directory tree; the config
+  path `-` (standard input: kept by `absolutePaths`, skipped by `GetWorkingDir`, read by `ReadConfigFiles`);
 * `cli.withNamePrecedenceLoad` (`cliName`), `loader.projectName` (`loaderName`), the export as
   `COMPOSE_PROJECT_NAME`, the interpolation of every `name:` key and of a probe string by the load pipeline,
   and the `project name must not be empty` test of `loader.load` (`load`).
@@ -94,6 +95,8 @@ deriving Repr
 structure CfgRef where
   dir : Nat
   file : Option Str
+  /-- the path `-`: the compose file is read from standard input (`dir`/`file` are then meaningless) -/
+  stdin : Bool := false
 deriving Repr, DecidableEq
 
 inductive FileRef
@@ -113,6 +116,8 @@ structure World where
   os : List Str
   /-- env files by path; an absent path does not exist -/
   envFiles : List (Str × EnvFile)
+  /-- what standard input holds (the documents of a compose file), for a config path `-` -/
+  stdinDocs : List (Option Str) := []
   /-- a string of the compose model (a label of a service present in every file), interpolated by the load -/
   probe : Str
 deriving Repr
@@ -157,12 +162,16 @@ def dirNode (w : World) (d : Nat) : DirNode := w.dirs.getD d { name := [] }
 
 /-- `ProjectOptions.GetWorkingDir`: `WorkingDir` when set, else the directory of the first config path, else
     the process working directory -/
+def firstFileDir : List CfgRef → Option Nat
+  | [] => none
+  | c :: cs => if c.stdin then firstFileDir cs else some c.dir
+
 def projDirId (w : World) (o : PO) : Nat :=
   match o.workDir with
   | some d => d
-  | none => match o.configs with
-    | c :: _ => c.dir
-    | [] => w.cwd
+  | none => match firstFileDir o.configs with   -- the first config path that is not `-`
+    | some d => d
+    | none => w.cwd
 
 /-- base name of the project directory -/
 def projDir (w : World) (o : PO) : Str := (dirNode w (projDirId w o)).name
@@ -219,11 +228,15 @@ def splitOnFuel (sep : Str) : Nat → Str → List Str
 
 def splitOn (sep s : Str) : List Str := splitOnFuel sep s.length s
 
+/-- what one entry of `COMPOSE_FILE` denotes: `-` is standard input (kept without any check), anything else must exist -/
+def pathRef (w : World) (p : Str) : Option CfgRef :=
+  if p = ['-'] then some { dir := 0, file := none, stdin := true } else List.lookup p w.paths
+
 /-- `absolutePaths`: every path must exist -/
 def resolvePaths (w : World) : List Str → Except Err (List CfgRef)
   | [] => .ok []
   | p :: ps =>
-    match List.lookup p w.paths with
+    match pathRef w p with
     | none => .error .configNotFound
     | some r =>
       match resolvePaths w ps with
@@ -307,15 +320,18 @@ def cliName (w : World) (o : PO) : Str × Bool :=
 def readConfigs (w : World) : List CfgRef → Except Err (List (List (Option Str)))
   | [] => .ok []
   | c :: cs =>
-    match c.file with
-    | none => .error .configIsDir
-    | some f =>
-      match List.lookup f (dirNode w c.dir).files with
-      | none => .error .configNotFound
-      | some docs =>
-        match readConfigs w cs with
-        | .ok r => .ok (docs :: r)
-        | .error e => .error e
+    match (if c.stdin then Except.ok w.stdinDocs else
+      match c.file with
+      | none => .error .configIsDir
+      | some f =>
+        match List.lookup f (dirNode w c.dir).files with
+        | none => .error .configNotFound
+        | some docs => .ok docs) with
+    | .error e => .error e
+    | .ok docs =>
+      match readConfigs w cs with
+      | .ok r => .ok (docs :: r)
+      | .error e => .error e
 
 /-- the scan of `loader.projectName` over one file: last non-empty `name` -/
 def lastNameDocs : List (Option Str) → Str → Str
